@@ -248,7 +248,7 @@ Continue(M, F, t) ==          \* one turn of `while True` in AsyncTask._continue
 StartSeg(M, F, t, v, u, isExc) ==
   LET k == M.tk[t].pc + 1
       M1 == IF ~M.tk[t].reg THEN Ev([M EXCEPT !.tk[t].reg = TRUE], [e |-> "Create", t |-> t, a |-> 0]) ELSE M
-      prevCatch == k > 1 /\ P.tasks[t].segs[k - 1].term.catch
+      prevCatch == k > 1 /\ P.tasks[t].segs[k - 1].term.catch /\ ~IsBaseX(v)      \* try/except Exception around the yield
       sb == [e |-> "SegBegin", t |-> t, k |-> k, v |-> v, u |-> u, a |-> M.active, xs |-> <<>>]
   IN IF isExc /\ ~prevCatch
      THEN BodyRaise(SegEndEv(Ev(M1, sb), t, k, 5, Val("N", 0, <<>>)), F, t, v, u)
@@ -315,8 +315,9 @@ RunTerm(M, F, t, k) ==
          IN IF deps = <<>> THEN Continue(M2, F, t) ELSE Epilogue(M2, F, t)
     [] tm.k = "return" -> BodyReturn(SegEndEv(M, t, k, 2, Val("N", 0, <<>>)), F, t, tm.ret)
     [] tm.k = "result" -> BodyReturn(SegEndEv(M, t, k, 3, Val("N", 0, <<>>)), F, t, 0)
-    [] tm.k = "raise"  -> LET u == M.uidc + 1 IN
-                          BodyRaise(SegEndEv([M EXCEPT !.uidc = u], t, k, 4, Val("N", 0, <<>>)), F, t, VX(10000 + t * 100 + k), u)
+    [] tm.k \in {"raise", "raiseb"} -> LET u == M.uidc + 1 IN
+                          BodyRaise(SegEndEv([M EXCEPT !.uidc = u], t, k, 4, Val("N", 0, <<>>)), F, t,
+                                    VX((IF tm.k = "raise" THEN 10000 ELSE 11000) + t * 100 + k), u)
 
 (* ---------------- one step of the machine --------------------------------------------------- *)
 IsBlocked(M, t) == \E i \in 1..Len(M.tk[t].deps) : ~IsDone(M, M.tk[t].deps[i])
